@@ -173,6 +173,10 @@ pub fn non_sgr_cases() -> Vec<Vec<u8>> {
     }
     for intro in [b'P', b'X', b'^', b'_'] {
         push([&[0x1b, intro][..], b"0;1|data 31m\x1b\\"].concat());
+        // without parameters or intermediates (shortest sixel form, tmux passthrough), followed by an SGR sequence that
+        // adds to the style
+        push([&[0x1b, intro][..], b"q#0\x1b\\\x1b[3m"].concat());
+        push([&[0x1b, intro][..], b"tmux;x\x1b\\c\x1b[9m"].concat());
     }
     out
 }
